@@ -1,6 +1,6 @@
 (* Proofs about the model in Partition.v: each transcribed loop computes the
    reference definition, for every list and every size >= 1. *)
-From Typ Require Import Lib.Base Slices.Partition Slices.PartitionCheck.
+From Typ Require Import Lib.Base Slices.Partition.
 
 Section Proofs.
 Context {A : Type}.
